@@ -72,7 +72,7 @@ LEAF_PY = {
 PRELUDE = """import collections, dataclasses, datetime, decimal, enum, fractions, ipaddress, pathlib, re, typing, uuid
 from dataclasses import dataclass, field
 from typing import *
-from typing_extensions import TypedDict, NamedTuple, Literal, Annotated, Self, Unpack
+from typing_extensions import TypedDict, NamedTuple, Literal, Annotated, Self, Unpack, NotRequired, Required
 from decimal import Decimal
 from fractions import Fraction
 from uuid import UUID
@@ -158,6 +158,7 @@ class FieldSpec:
     default: Any = NODEFAULT                # python value, 'factory:list' / 'factory:dict', or NODEFAULT
     default_src: str | None = None          # source text of the default expression
     alias: str | None = None                # metadata alias
+    optional: bool | None = None            # TypedDict key: True = NotRequired[...], False = Required[...], None = the class's totality
 
 
 @dataclass
@@ -183,7 +184,12 @@ class ClassSpec:
         if self.kind == "td":
             lines = [f"class {self.name}(TypedDict, total={self.total}):"]
             for f in self.fields:
-                lines.append(f"    {f.name}: {py_ann(f.ty)}")
+                a = py_ann(f.ty)
+                if f.optional is True and self.total:
+                    a = f"NotRequired[{a}]"
+                elif f.optional is False and not self.total:
+                    a = f"Required[{a}]"
+                lines.append(f"    {f.name}: {a}")
             if not self.fields:
                 lines.append("    pass")
             return "\n".join(lines) + "\n"
@@ -212,6 +218,16 @@ class ClassSpec:
             for k, v in self.config.items():
                 lines.append(f"        {k} = {v!r}")
         return "\n".join(lines) + "\n"
+
+
+def td_is_optional(spec: "ClassSpec", f: FieldSpec) -> bool:
+    """is the key of a TypedDict class not required (total=False or NotRequired[...])"""
+    return (not spec.total) if f.optional is None else f.optional
+
+
+def td_order(spec: "ClassSpec") -> list[FieldSpec]:
+    """the key order of a (de)serialized TypedDict: required keys, then optional keys, each in declaration order"""
+    return [f for f in spec.fields if not td_is_optional(spec, f)] + [f for f in spec.fields if td_is_optional(spec, f)]
 
 
 class Family:
@@ -368,8 +384,8 @@ class SchemaGen:
         choices = list(self.o.containers if not self.o.coq_only else COQ_CONTAINERS)
         if self.o.classes:
             choices += ["data", "data"]
-        if self.o.named and not self.o.coq_only:
-            choices += ["nt", "td", "tupleu"]
+        if self.o.named:
+            choices += ["nt", "td"] + ([] if self.o.coq_only else ["tupleu"])
         if self.o.unions:
             choices += ["union"]
         if self.o.literals:
@@ -534,7 +550,10 @@ class SchemaGen:
         name = self.fresh("N")
         spec = ClassSpec("nt", name)
         for i in range(r.randrange(1, 4)):
-            spec.fields.append(FieldSpec(f"a{i}", self.gen_type(min(d, 1))))
+            ft = self.gen_type(min(d, 1))
+            if self.o.coq_only and r.random() < 0.08:
+                ft = r.choice([T("none"), T("tuplefix", [])])      # constant positions (never read their item)
+            spec.fields.append(FieldSpec(f"a{i}", ft))
         # trailing defaults (decoding a shorter list falls back to them)
         for f in reversed(spec.fields):
             dv = self.simple_default(f.ty) if r.random() < 0.4 else None
@@ -548,8 +567,16 @@ class SchemaGen:
         r = self.rng
         name = self.fresh("TD")
         spec = ClassSpec("td", name, total=r.random() < 0.7)
-        for i in range(r.randrange(1, 4)):
-            spec.fields.append(FieldSpec(f"k{i}", self.gen_type(min(d, 1))))
+        mixed = r.random() < 0.35           # Required[...] / NotRequired[...] on single keys
+        for i in range(r.randrange(0 if (self.o.coq_only and r.random() < 0.1) else 1, 4)):
+            ft = self.gen_type(min(d, 1))
+            if self.o.coq_only and r.random() < 0.08:
+                # constant positions: a required key of such a type is never read from the input
+                ft = r.choice([T("none"), T("tuplefix", [])])
+            fs = FieldSpec(f"k{i}", ft)
+            if mixed and r.random() < 0.5:
+                fs.optional = spec.total
+            spec.fields.append(fs)
         self.fam.classes.append(spec)
         return T("td", name=name)
 
@@ -710,8 +737,11 @@ class ValueGen:
         if k == "td":
             spec = self.fam.get(t.name)
             d = {}
-            for f in spec.fields:
-                if spec.total or r.random() < 0.7:
+            fields = list(spec.fields)
+            if r.random() < 0.5:
+                r.shuffle(fields)           # insertion order of the value is not the declaration order
+            for f in fields:
+                if not td_is_optional(spec, f) or r.random() < 0.7:
                     d[f.name] = self.value(f.ty, depth + 1)
             return d
         raise ValueError(k)
@@ -791,13 +821,13 @@ from harness.vlib import coq_str, coq_z  # noqa: E402
 def in_coq(t: T, fam: Family, seen=None) -> bool:
     seen = seen or set()
     for n in t.walk():
-        if n.kind in ("seq", "deque", "mapping", "ordereddict", "counter", "chainmap", "defaultdict", "mappingproxy", "nt", "td", "union", "lit", "tupleu"):
+        if n.kind in ("seq", "deque", "mapping", "ordereddict", "counter", "chainmap", "defaultdict", "mappingproxy", "union", "lit", "tupleu"):
             return False
         if n.kind == "leaf" and n.name == "timezone":
             pass
         if n.kind == "enum" and fam.get(n.name).base in ("Flag", "IntFlag"):
             return False
-        if n.kind == "data" and n.name not in seen:
+        if n.kind in ("data", "nt", "td") and n.name not in seen:
             seen.add(n.name)
             for f in fam.get(n.name).fields:
                 if isinstance(f.default, str) and f.default.startswith("factory:"):
@@ -834,6 +864,10 @@ def coq_sty(t: T) -> str:
         return f"(SOpt {a[0]})"
     if k == "data":
         return f"(SData {coq_str(t.name)})"
+    if k == "nt":
+        return f"(SNamed {coq_str(t.name)})"
+    if k == "td":
+        return f"(STyped {coq_str(t.name)})"
     raise ValueError(k)
 
 
@@ -876,6 +910,8 @@ def coq_pv(v, seen_leaf=None) -> str:
         return "(VList [" + "; ".join(coq_pv(x) for x in v) + "])"
     if type(v) is tuple:
         return "(VTuple [" + "; ".join(coq_pv(x) for x in v) + "])"
+    if isinstance(v, tuple) and hasattr(type(v), "_fields"):
+        return f"(VNT {coq_str(type(v).__name__)} [" + "; ".join(coq_pv(x) for x in v) + "])"
     if type(v) in (set, frozenset):
         items = [coq_pv(x) for x in v]       # iteration order (PYTHONHASHSEED is fixed by ./check)
         return f"(VSet {'true' if type(v) is frozenset else 'false'} [" + "; ".join(items) + "])"
@@ -920,19 +956,21 @@ def coq_senv(fam: Family, names: list[str]) -> str:
                 d = "(Some (VDict []))"
             else:
                 d = f"(Some {coq_pv(f.default)})"
-            fs.append(f"{{| sf_name := {coq_str(f.name)}; sf_ty := {coq_sty(f.ty)}; sf_default := {d} |}}")
-        out.append(f"{{| sc_name := {coq_str(n)}; sc_fields := [" + "; ".join(fs) + "] |}")
+            o = "true" if (c.kind == "td" and td_is_optional(c, f)) else "false"
+            fs.append(f"{{| sf_name := {coq_str(f.name)}; sf_ty := {coq_sty(f.ty)}; sf_default := {d}; sf_opt := {o} |}}")
+        kd = {"data": "KData", "nt": "KNamed", "td": "KTyped"}[c.kind]
+        out.append(f"{{| sc_kind := {kd}; sc_name := {coq_str(n)}; sc_fields := [" + "; ".join(fs) + "] |}")
     return "[" + ";\n   ".join(out) + "]"
 
 
 def reachable_classes(t: T, fam: Family) -> tuple[list[str], list[str]]:
-    """(dataclass names, enum names) reachable from t"""
+    """(dataclass / NamedTuple / TypedDict names, enum names) reachable from t"""
     dcs: list[str] = []
     ens: list[str] = []
 
     def go(x: T):
         for n in x.walk():
-            if n.kind == "data" and n.name not in dcs:
+            if n.kind in ("data", "nt", "td") and n.name not in dcs:
                 dcs.append(n.name)
                 for f in fam.get(n.name).fields:
                     go(f.ty)
